@@ -23,7 +23,7 @@ From Coq Require Import List String Arith Bool Lia.
 Import ListNotations.
 From MVGen Require Import JsGates_gen.
 From MV Require Import Js.PrintModel Js.PrintSpec Js.PrintGen Js.PrintProofs Js.PrintGroup Js.RewriteModel Js.RewriteSem Js.RewriteProofs Js.RewritePipe Js.RewritePipeProofs Js.StmtModel Js.StmtSem Js.StmtProofs Js.StmtPrint Js.StmtParse Js.StmtPrintProofs Js.NumLit Js.NumLitSpec Js.NumLitProofs Js.StrLit Js.StrLitSpec Js.StrLitProofs.
-From MV Require Js.PrintRender Js.PrintRenderProofs Js.StmtRender Js.StmtRenderProofs.
+From MV Require Js.PrintRender Js.PrintRenderProofs Js.StmtRender Js.StmtRenderProofs Js.StmtRenderClosed.
 From MV Require Base.MvBytes Num.NumModel Num.NumSpec.
 From Coq Require Import ZArith.
 Local Open Scope string_scope.
@@ -426,3 +426,26 @@ Theorem function_body_bytes_lex_back : forall T efuel function l,
   StmtRenderProofs.lexs_bytes (StmtRender.render_body T efuel function l) = Some (StmtRenderProofs.stok_surfaces (print_body T efuel function l)).
 Proof. exact StmtRenderProofs.render_body_lexes_back. Qed.
 Print Assumptions function_body_bytes_lex_back.
+
+(* ---------- closed form: conditions on the INPUT statement list only ----------
+   The rewrites keep every operator in its syntactic class (rw_ok; needs sem_tables_ok: with an arbitrary table flip_eq
+   could write the operator ErrorToken — counterexample in StmtRenderClosed.ClosedChecks), the statement optimiser only
+   builds ! && || , ?: and void 0 from the expressions it is given, and the printer's keywords are words or punctuation.
+   So: for every statement list whose expressions have identifier atoms and operators in their class and whose branch
+   statements carry no label, the bytes js.Minify's writer puts out for the function body lex back to exactly the tokens
+   of the statement printer (the fuel condition only excludes the model's out-of-fuel marker and is decidable). *)
+Theorem rewrites_keep_operators_in_class : forall T, RewriteSem.sem_tables_ok T = true ->
+  forall fuel prec e t, PrintRenderProofs.expr_ok e = true -> RewritePipe.rw T fuel prec e = Some t -> PrintRenderProofs.expr_ok t = true.
+Proof. exact StmtRenderClosed.rw_ok. Qed.
+Print Assumptions rewrites_keep_operators_in_class.
+
+Theorem function_body_bytes_lex_back_closed : forall T efuel function l,
+  RewriteSem.sem_tables_ok T = true ->
+  StmtRenderClosed.stmts_okb l = true ->
+  StmtRenderClosed.stmts_fuel_okb T efuel (optimize_body T function l) = true ->
+  StmtRenderProofs.lexs_bytes (StmtRender.render_body T efuel function l) = Some (StmtRenderProofs.stok_surfaces (print_body T efuel function l)).
+Proof. exact StmtRenderClosed.render_body_lexes_back_closed. Qed.
+Print Assumptions function_body_bytes_lex_back_closed.
+
+Example generated_tables_sem_ok : RewriteSem.sem_tables_ok T_gen = true.
+Proof. vm_compute. reflexivity. Qed.
